@@ -1033,7 +1033,7 @@ func init() {
 		Gen:   c33GenOps,
 		Check: func(c c33Case) error { return c33RunOps(c, nil) },
 		Class: c33ClassOps,
-		Quick: 10000, Thorough: 150000,
+		Quick: 10000, Thorough: 150000, FuzzSecs: 45,
 		Known: []vs.Known[c33Case]{
 			{Key: "C33:styletext-no-merge", Case: c33Case{Strict: true, Ops: []c33Op{
 				c33T("foo"), c33T("bar", "fg-green"), {K: "concat", Src: []int{1, 2}}, {K: "style", Src: []int{3}, Words: []string{"fg-red"}}}}},
